@@ -65,7 +65,12 @@ def arrays_for(shape):
         blk = _W["blk"]
         ref = np.arange(int(np.prod(key)), dtype=np.int64).reshape(key) + 100
         nm = "r%d" % len(arrays)
-        arrays[key] = (ref, blk.create_data_array(nm, "t", data=ref), blk.create_data_array(nm + "w", "t", data=ref))
+        # the third array is calibrated (reads are 1 + 2 * (x - 0.5) = 2 * x, exact): assignment stores RAW values, so
+        # after an assignment through it every element must read as twice the mirror's
+        cal = blk.create_data_array(nm + "c", "t", data=ref)
+        cal.polynom_coefficients = [1.0, 2.0]
+        cal.expansion_origin = 0.5
+        arrays[key] = (ref, blk.create_data_array(nm, "t", data=ref), blk.create_data_array(nm + "w", "t", data=ref), cal)
     return arrays[key]
 
 
@@ -81,7 +86,7 @@ def replay_one(vec):
 
     cfg, e, r = vec["cfg"], vec["q"]["e"], vec["r"]
     shape = tuple(cfg["shape"])
-    ref, da, daw = arrays_for(shape)
+    ref, da, daw, dawc = arrays_for(shape)
     ex = pyexpr(e)
     if len(ex) == 1 and k % 2:
         ex = ex[0]
@@ -158,6 +163,10 @@ def replay_one(vec):
         return res
     if (k + seed) % 4 == 0:
         res["assign"] += 1
+        calibrated = ((k + seed) // 4) % 2 == 1
+        if calibrated:
+            daw = dawc
+            res["assign_calibrated"] = res.get("assign_calibrated", 0) + 1
         mirror = ref.copy()
         mview = mirror if starts is None else mirror[tuple(slice(s, s + x) for s, x in zip(starts, exts))]
         block = -(np.arange(want_arr.size, dtype=np.int64).reshape(np.shape(want)) + 1)
@@ -171,9 +180,10 @@ def replay_one(vec):
             daw[...] = ref
             return res
         after = daw[:]
-        if not np.array_equal(after, mirror):
-            violation("%s/assign_differs" % ecls, {"config": cfg, "expr": repr(ex), "expected": repr(mirror)[:160],
-                                                   "observed": repr(after)[:160]})
+        if not np.array_equal(after, 2.0 * mirror if calibrated else mirror):
+            violation("%s/assign_differs%s" % (ecls, "_calibrated_array" if calibrated else ""),
+                      {"config": cfg, "expr": repr(ex), "expected": repr(2.0 * mirror if calibrated else mirror)[:160],
+                       "observed": repr(after)[:160]})
         if want_arr.size:
             daw[...] = ref
     return res
@@ -188,7 +198,7 @@ def run(tier, seed, verdict):
     runs = [runner.ExportRun("MC_NixIndex", c, seed, "harness.c06", stride=strides.get(c, 1), batch=400, heap="3g",
                              label=lambda v: "%s/rank%d" % ("view" if v["cfg"]["view"] else "array", len(v["cfg"]["shape"])))
             for c in cfgs]
-    counts = {"read": 0, "assign": 0, "error_vectors": 0, "invalid_views": 0, "view": 0, "array": 0}
+    counts = {"read": 0, "assign": 0, "assign_calibrated": 0, "error_vectors": 0, "invalid_views": 0, "view": 0, "array": 0}
     results = {}
     samples = []
     k = 0
@@ -226,7 +236,7 @@ def run(tier, seed, verdict):
     states += arun.res.distinct
     exports += arun.stats["exported"]
     cmds.append(arun.res.cmd)
-    if not counts["error_vectors"] or not counts["invalid_views"] or not counts["assign"]:
+    if not counts["error_vectors"] or not counts["invalid_views"] or not counts["assign"] or not counts["assign_calibrated"]:
         raise core.MachineryError("vacuity: %r" % counts)
     coverage = {
         "states": states, "transitions": exports, "traces_validated_against_impl": counts["read"],
